@@ -60,6 +60,9 @@ pub fn strategy() -> impl Strategy<Value = Case> {
         vec(0u64..80, 40),
     )
         .prop_map(|(raw, mode_k, picks, ncmd, split, timing_k, rnd)| {
+            // helper traces are keyed by working directory: keep target paths free of trailing slashes here
+            let mut raw = raw;
+            raw.trailing_slash = 0;
             let mut config = gen::build_config(&raw, CycleMode::Acyclic);
             let n = config.targets.len();
             let names: Vec<String> = (0..ncmd).map(|i| format!("c{}", i)).collect();
